@@ -20,6 +20,13 @@ fn main() {
             // the endpoint's acceptor thread never exits: leave the process hard
             std::process::exit(0);
         }
+        "http-stall" => {
+            // bsh http-stall <stalled readers> <ipv6 0|1>
+            let k: usize = arg(&args, 2, 1);
+            let v6: u8 = arg(&args, 3, 0);
+            print!("{}", http::stall(k, v6 == 1));
+            std::process::exit(0);
+        }
         "codec-mesh" => print!("{}", codec::mesh_cases(arg(&args, 2, 1), arg(&args, 3, 100), arg(&args, 4, 2000))),
         "codec-image" => print!("{}", codec::image_cases(arg(&args, 2, 1), arg(&args, 3, 100), arg(&args, 4, 16))),
         "codec-msg" => print!("{}", codec::msg_cases(arg(&args, 2, 1), arg(&args, 3, 100))),
